@@ -4,6 +4,7 @@ import itertools
 
 PID = "C14"
 SUBS = ["C14", "C14live", "C14e2e"]
+EXTRA_TARGETS = ("BS.Properties.C14l",)
 PARALLEL = {"C14live": 8, "C14e2e": 8}
 RETRY_FLAKY = ("C14live",)
 RULE = ("schedule(): every configuration of <=3 (quick) / <=4 (thorough) requests with priority<=2, procs 1..4 and <=3 machines "
@@ -197,4 +198,40 @@ def t2(chk, wc, tier, seed):
     rc, out, err = vlib.gofacts(wc, "const", "exec/slicemachine.go", "maxStartMachines")
     gen.append("def maxStartMachinesG : Nat := %s" % (out.strip() if rc == 0 and out.strip().isdigit() else "0"))
     ties.append(("maxStart_tie", "theorem maxStart_tie : maxStartMachinesG = 10 := by decide", "exec/slicemachine.go maxStartMachines"))
+    # (d) local mode: the token protocol of (*localExecutor).Run / Start is the one BS.Limiter models
+    def q(s):
+        return '"%s"' % s.replace("\\", "\\\\").replace('"', "'")
+    rc, out, err = vlib.gofacts(wc, "stmts", "exec/local.go", "localExecutor.Run")
+    rc2, out2, err2 = vlib.gofacts(wc, "stmts", "exec/local.go", "localExecutor.Start")
+    if rc != 0 or rc2 != 0:
+        gen.append("-- gofacts stmts failed: " + (err + err2).strip().replace("\n", " "))
+    else:
+        st = json.loads(out)
+        st2 = json.loads(out2)
+        acq = [i for i, s in enumerate(st) if "l.limiter.Acquire(" in s["text"]]
+        ia = acq[0] if acq else -1
+        m = re.search(r"l\.limiter\.Acquire\(\s*\w+\s*,\s*([^)]*)\)", st[ia]["text"]) if ia >= 0 else None
+        acq_arg = m.group(1).strip() if m else "?"
+        nxt = st[ia + 1] if 0 <= ia < len(st) - 1 else {"kind": "", "text": ""}
+        m = re.fullmatch(r"defer l\.limiter\.Release\((.*)\)", nxt["text"])
+        rel_arg = m.group(1).strip() if m and nxt["kind"] == "DeferStmt" else "?"
+        # the statements that give the amount its value, before the acquire
+        init = [s["text"] for s in st[:max(ia, 0)] if re.match(r"%s\s*:?=" % re.escape(acq_arg), s["text"])]
+        cond = [s["text"] for s in st[:max(ia, 0)] if s["kind"] == "IfStmt" and re.search(r"\b%s\s*=[^=]" % re.escape(acq_arg), s["text"])]
+        later = [s["text"] for s in st[ia + 1:] if re.search(r"(^|[^\w.])%s\s*(=|\+=|-=|:=|\+\+|--)[^=]?" % re.escape(acq_arg), s["text"])] if ia >= 0 else ["?"]
+        other_rel = [s["text"] for k, s in enumerate(st) if "limiter.Release(" in s["text"] and k != ia + 1]
+        gen.append("def acquireArgG : String := %s" % q(acq_arg))
+        gen.append("def deferredReleaseArgG : String := %s" % q(rel_arg))
+        gen.append("def amountInitG : List String := [%s]" % ", ".join(q(x) for x in init))
+        gen.append("def amountCondG : List String := [%s]" % ", ".join(q(x) for x in cond))
+        gen.append("def amountAssignedLaterG : Nat := %d" % len(later))
+        gen.append("def otherReleasesG : Nat := %d" % len(other_rel))
+        gen.append("def acquireFailureReturnsG : Nat := %d" % (1 if ia >= 0 and st[ia]["returns"] else 0))
+        gen.append("def startStmtsG : List String := [%s]" % ", ".join(q(s["text"]) for s in st2))
+    ties.append(("limiter_protocol_tie",
+                 "theorem limiter_protocol_tie : acquireArgG = \"n\" ∧ deferredReleaseArgG = acquireArgG ∧ amountInitG = [\"n := 1\"] ∧\n"
+                 "    amountCondG = [\"if task.Pragma.Exclusive() { n = l.sess.p }\"] ∧ amountAssignedLaterG = 0 ∧ otherReleasesG = 0 ∧\n"
+                 "    acquireFailureReturnsG = 1 ∧ startStmtsG = [\"l.sess = sess\", \"l.limiter.Release(sess.p)\", \"return\"] := by decide",
+                 "exec/local.go (*localExecutor).Run/Start: the amount is 1 or sess.p when Exclusive (BS.Limiter.need), Start puts sess.p tokens in, the "
+                 "release is deferred directly after the acquire with the same variable, which is not assigned again"))
     vlib.t2_check(chk, wc, "C14", ["BS.Model.Cluster", "BS.Tie.Tactic"], "\n".join(gen), ties)
